@@ -498,12 +498,33 @@ fn assign_contents(rng: &mut Rng, ids: &[u64], max_len: usize, pattern: u64) -> 
 pub fn drive_bulk(seed: u64, tier: &str, out: &mut Out) {
     let mut rng = Rng::new(seed ^ 0x42554c4b);
     let sizes: Vec<usize> = if tier == "thorough" {
-        vec![0, 1, 2, 3, 5, 9, 50, 51, 500, 700, 2000, 5000, 9000, 20000, 50000, 0, 1, 7, 120, 1200]
+        vec![0, 1, 2, 3, 5, 9, 50, 51, 500, 700, 2000, 5000, 9000, 20000, 70000, 0, 1, 7, 120, 1200]
     } else {
         vec![0, 1, 2, 5, 50, 500, 5000, 3, 17, 200, 1500]
     };
     let reps = if tier == "thorough" { 3 } else { 2 };
     let mut em = Emitter::new();
+    // identical contents at IDs whose distance is a multiple of 2^32 plus the run length so far: never one run
+    {
+        let x = vec![7u8, 7, 7];
+        let y = vec![8u8; 40];
+        let b = 5u64 << 32;
+        let tiles: Vec<(u64, Vec<u8>)> = vec![
+            (0, x.clone()), ((1 << 32) + 1, x.clone()), (b + 7, y.clone()), (b + 8, y.clone()), (b + 9, y.clone()),
+            (b + (1 << 32) + 10, y.clone()), ((9 << 32) + 2, x.clone()), ((11 << 32) + 3, x.clone()), ((11 << 32) + 4, x),
+        ];
+        for api in [0u8, 1] {
+            let set = Settings::random(&mut rng, 1 + api);
+            let mut ops = vec![Op::New { tt: set.tt, tc: set.tc, api }, Op::Set(set), Op::Bulk(tiles.clone()), Op::Save, Op::Reopen { api }, Op::Count, Op::List];
+            for (id, _) in &tiles {
+                ops.push(Op::Get { id: *id });
+                ops.push(Op::Get { id: id + 1 });
+            }
+            ops.push(Op::Save);
+            ops.push(Op::Reset);
+            em.emit(&exec(&ops, false), out);
+        }
+    }
     let mut k = 0u64;
     for rep in 0..reps {
         for &n in &sizes {
